@@ -165,7 +165,57 @@ def r05_5(ctx):
     return rr
 
 
-RULES = [r05_1, r05_2, r05_3, r05_4, r05_5]
+def r05_9(ctx):
+    rr = RuleResult(
+        "R05.9", "GUARD",
+        "dask's generic entry points (dask.optimize, dask.persist) walk the RAW expression tree and call _layer on every raw node: a _layer that pairs blocks by position - valid only after _lower has aligned the inputs - first hands back the materialized graph when the node is still unlowered (self._graph_if_unlowered())",
+        min_instances=4,
+    )
+    repo = ctx.repo
+    ae = repo.mod("dask_array._expr").cls("ArrayExpr")
+    helper = ae.methods.get("_graph_if_unlowered")
+    rr.inst(f"{ae.construct}::_graph_if_unlowered", defined=helper is not None)
+    if helper is None:
+        ctx.finding(rr, f"{ae.construct}::_graph_if_unlowered", "ArrayExpr no longer provides the unlowered-form guard for position-pairing layers", file=ae.module.path, line=ae.node.lineno)
+    else:
+        txt = unparse(helper.node)
+        ok = "self._lower()" in txt and ("_materialize(self)" in txt or "ArrayExpr._layer(self)" in txt)
+        if not ok:
+            ctx.finding(rr, f"{ae.construct}::_graph_if_unlowered", "_graph_if_unlowered no longer asks self._lower() and hands back the materialized graph of self (ArrayExpr._layer)", func=helper)
+    seen = set()
+    for c in repo.expr_classes():
+        lay = repo.class_attr(c, "_layer")
+        low = repo.class_attr(c, "_lower")
+        if not lay or not low or not hasattr(lay[1], "node") or not hasattr(low[1], "node"):
+            continue
+        if not lay[0].module.is_unit or not low[0].module.is_unit or lay[0].name == "ArrayExpr":
+            continue
+        rewrites = [r for r in body_walk(low[1].node) if isinstance(r, ast.Return) and r.value is not None and not (isinstance(r.value, ast.Constant) and r.value.value is None)]
+        if not rewrites:
+            continue
+        f = lay[1]
+        if f.fq in seen:
+            continue
+        seen.add(f.fq)
+        body = [b for b in f.node.body if not (isinstance(b, ast.Expr) and isinstance(b.value, ast.Constant))]
+        # ``graph = self._graph_if_unlowered(); if graph is not None: return graph`` (or the walrus / direct-return spellings)
+        head = body[:3]
+        calls = [n for b in head for n in ast.walk(b) if isinstance(n, ast.Call) and unparse(n.func) == "self._graph_if_unlowered"]
+        returns = [n for b in head for n in ast.walk(b) if isinstance(n, ast.Return)]
+        guarded = bool(calls) and bool(returns)
+        cst = f"{f.construct}::unlowered-form guard"
+        rr.inst(cst, guarded=guarded, lowering_rewrites=len(rewrites), used_by=[k.name for k in repo.expr_classes() if (repo.class_attr(k, "_layer") or (None, None))[1] is f][:6])
+        if not guarded:
+            ctx.finding(
+                rr, cst,
+                f"{f.qualname} builds its layer by pairing blocks of its inputs by position, while {low[0].name}._lower can still replace the node (unaligned inputs): called on the raw node - as dask.optimize / dask.persist do - "
+                "it emits tasks over mismatched blocks (dask.optimize(x + y) with x, y chunked differently raised 'Shapes do not align', or silently computed other values)",
+                func=f,
+            )
+    return rr
+
+
+RULES = [r05_1, r05_2, r05_3, r05_4, r05_5, r05_9]
 
 LEVEL_TEXT = (
     "Static decision that all entry points (compute, persist, __dask_graph__, to_delayed, Frisky hooks, dask's generic "
